@@ -180,8 +180,10 @@ Definition restrict_internal_api (m : Z) (c : caller) : bool :=   (* true = allo
 Definition find_row (a : actor_info) (m : Z) : option row :=
   find (fun r => Z.eqb (r_num r) m) (a_rows a).
 
+(* method 0 (METHOD_SEND) is a bare value transfer: the VM never hands it to actor code *)
 Definition dispatch (a : actor_info) (e : env) (m : Z) (c : caller) : outcome :=
-  if negb (a_has_dispatch a) then Unhandled
+  if m =? 0 then Passed
+  else if negb (a_has_dispatch a) then Unhandled
   else if a_restricted a && negb (restrict_internal_api m c) then RejInternal
   else match find_row a m with
        | Some r => guard_outcome e (r_guard r) c
@@ -462,8 +464,9 @@ Definition actor_complete (a : actor_info) : bool :=
   && forallb (fun r => existsb (fun x => String.eqb (fst (fst x)) (r_name r) && Z.eqb (snd (fst x)) (r_num r)) (a_enum a)) (a_rows a)
   && nodupb_z (enum_nums a)
   && nodupb_s (map (fun x => fst (fst x)) (a_enum a))
-  (* every handler validates: at least one call site on every row (and on the fallback) *)
-  && forallb (fun r => 1 <=? r_sites r) (a_rows a)
+  (* every handler validates: at least one call site on every row (and on the fallback);
+     no row claims method number 0 *)
+  && forallb (fun r => (1 <=? r_sites r) && (0 <? r_num r)) (a_rows a)
   && match a_fallback a with Some f => 1 <=? f_sites f | None => true end
   (* no validate call site of the file outside the functions reached from the dispatch table *)
   && Z.eqb (actor_site_total a) (a_file_sites a)
